@@ -66,10 +66,11 @@ def parseTag (s : Sexp) : Option Tag := do
   | [a, b, c, d] => some ⟨a.toNat, b.toNat, c.toNat, d.toNat⟩
   | _ => none
 
-def parseLoc (s : Sexp) : Option Loc :=
+/-- entries `(tag value text)`: the location and, per coordinate, the text the real f64 printer gave -/
+def parseLocT (s : Sexp) : Option (List (Tag × Rat × List Nat)) :=
   s.mapM? fun e =>
     match e with
-    | .list [t, x] => do some (← parseTag t, ← x.asRat?)
+    | .list [t, x, txt] => do some (← parseTag t, ← x.asRat?, ← parseStr txt)
     | _ => none
 
 def feFixed : String → Option FeId
@@ -122,11 +123,17 @@ def beFixed : String → Option BeId
   | "extra_fea_tables" => some .extraFeaTables
   | _ => none
 
+/-- the printed texts of the coordinates of a kerning-instance id -/
+def idTexts (s : Sexp) : Option (List (Rat × List Nat)) :=
+  match s with
+  | .list [.atom "fe", .atom "kern_instance", l] => do some ((← parseLocT l).map fun e => (e.2.1, e.2.2))
+  | _ => some []
+
 def parseId (s : Sexp) : Option AnyId :=
   match s with
   | .list [.atom "fe", .atom "glyph", n] => do some (.fe (.glyph (← parseStr n)))
   | .list [.atom "fe", .atom "anchor", n] => do some (.fe (.anchor (← parseStr n)))
-  | .list [.atom "fe", .atom "kern_instance", l] => do some (.fe (.kernInstance (← parseLoc l)))
+  | .list [.atom "fe", .atom "kern_instance", l] => do some (.fe (.kernInstance ((← parseLocT l).map fun e => (e.1, e.2.1))))
   | .list [.atom "fe", .atom w] => AnyId.fe <$> feFixed w
   | .list [.atom "be", .atom "glyf_fragment", n] => do some (.be (.glyfFragment (← parseStr n)))
   | .list [.atom "be", .atom "gvar_fragment", n] => do some (.be (.gvarFragment (← parseStr n)))
@@ -160,16 +167,22 @@ def descId : AnyId → String
   | .be (.glyfFragment n) => s!"be.GlyfFragment({repr (showCps n)})"
   | .be (.gvarFragment n) => s!"be.GvarFragment({repr (showCps n)})"
   | .be (.kernFragment k) => s!"be.KernFragment({k})"
-  | i => s!"fixed:{showCps (anyTarget i)}"
+  | i => s!"fixed:{showCps (anyTarget (fun _ => []) i)}"
 
 def handlePaths : Handler := fun s =>
   let r : Option Verdict := do
     let ids ← (← s.field1? "ids").mapM? parseId
+    let table := (← (← s.field1? "ids").mapM? idTexts).flatten
     let impl := Sexp.list (← s.field? "impl")
     let paths ← (← impl.field1? "paths").mapM? parseStr
     if paths.length != ids.length then none
-    let model := ids.map anyTarget
-    let corr := model == paths
+    -- the float printer of this case: the texts the real `f64 as Display` produced
+    let pr : Rat → List Nat := fun x => (table.lookup x).getD []
+    -- what the theorems assume of it (PrintInjective, PrintNoUnderscore), checked on the case
+    let printerOk := (pairs table).all (fun (a, b) => (a.1 == b.1) == (a.2 == b.2)) &&
+      table.all (fun e => !e.2.isEmpty && !(e.2.contains 0x5F))
+    let model := ids.map (anyTarget pr)
+    let corr := model == paths && printerOk
     let ips := ids.zip paths
     -- the harness sends ids that are pairwise distinct by the real `Eq`
     let clashes := (pairs ips).filter fun (a, b) => a.2 == b.2
@@ -189,6 +202,7 @@ def handlePaths : Handler := fun s =>
       else if !clashes.isEmpty then
         (if clashes.all kernClash then "kern-location-2-decimals" else "path-collision")
       else if !foldClashes.isEmpty then "path-collision-ascii-caseless"
+      else if !printerOk then "float-printer-assumption"
       else if !corr then "target_file" else ""
     let nKern := (ids.filter isKern).length
     let closeKern := (pairs (ids.filter isKern)).any fun (a, b) => agreeTwoDecimals (kernLoc a) (kernLoc b)
@@ -212,6 +226,10 @@ def handlePaths : Handler := fun s =>
         match clashes.head? with
         | some (a, b) => s!"same_path={repr (showCps a.2)} a={descId a.1} b={descId b.1}"
         | none => ""
+      else if !printerOk then
+        match (pairs table).find? (fun (a, b) => (a.1 == b.1) != (a.2 == b.2)) with
+        | some (a, b) => s!"printer: {ratStr a.1} -> {repr (showCps a.2)}, {ratStr b.1} -> {repr (showCps b.2)}"
+        | none => "printer: empty text or '_' in a text"
       else if corr then "" else
         match (ids.zip (model.zip paths)).find? (fun (_, m, o) => m != o) with
         | some (i, m, o) => s!"id={descId i} model={repr (showCps m)} impl={repr (showCps o)}"
@@ -249,22 +267,31 @@ def handleEmit : Handler := fun s =>
       let readBack ← num "readback_checked"
       let readBad ← num "readback_differs"
       let badKern ← num "readback_differs_kern_shared"
-      let badPost ← num "readback_differs_post"
-      let badEmpty ← num "readback_differs_empty_glyph"
-      let badFvar ← num "readback_differs_fvar"
+      let kinds ← (← impl.field1? "readback_differs_kinds").mapM? fun e =>
+        match e with
+        | .list [.atom k, n] => do some (k, ← n.asNat?)
+        | _ => none
+      let cnt (k : String) : Nat := (kinds.lookup k).getD 0
+      let badEmpty := cnt "be.glyf_fragment.empty"
+      let badPost := cnt "be.post.empty-string-data"
+      let badFvar := cnt "be.fvar.psname-ffff"
+      let otherKinds := kinds.filter fun (k, _) =>
+        k != "be.glyf_fragment.empty" && k != "be.post.empty-string-data" && k != "be.fvar.psname-ffff"
       let notes := ((← impl.field1? "notes").asString?).getD ""
       -- the property on what the build left behind
       let oneFilePerId := missing == 0 && shared == 0 && unexpected == 0
       let faithful := readBad == 0
       let oracle := fontsEqual && oneFilePerId && faithful
       -- failure class: anything not yet explained first, then the recorded kinds
-      let unexplained := !fontsEqual || missing != 0 || unexpected != 0 || shared != sharedKern ||
-        readBad != badKern + badPost + badEmpty + badFvar
+      let unexplained := !otherKinds.isEmpty || readBad != badKern + badPost + badEmpty + badFvar
       let cls :=
         if oracle then ""
         else if !fontsEqual then "emit-ir-changes-font"
         else if missing != 0 || unexpected != 0 || shared != sharedKern then "files-vs-ids"
-        else if unexplained then "readback-differs"
+        else if unexplained then
+          (match otherKinds.head? with
+           | some (k, _) => s!"readback-mismatch:{k}"
+           | none => "readback-mismatch:count")
         else if sharedKern != 0 then "kern-location-2-decimals"
         else if badEmpty != 0 then "readback-empty-glyph"
         else if badFvar != 0 then "readback-fvar-psname"
@@ -279,7 +306,7 @@ def handleEmit : Handler := fun s =>
                (if badPost > 0 then ["fail-post-readback"] else []) ++ (if badEmpty > 0 then ["fail-empty-glyph-readback"] else []) ++
                (if badFvar > 0 then ["fail-fvar-readback"] else []),
              detail := if oracle then "" else
-               s!"fonts_equal={fontsEqual} ids={nIds} files={nFiles} missing={missing} shared={shared} shared_kern={sharedKern} unexpected={unexpected} readback_differs={readBad} kern={badKern} post={badPost} empty_glyph={badEmpty} fvar={badFvar} notes={notes.replace "\n" " "}" }
+               s!"fonts_equal={fontsEqual} ids={nIds} files={nFiles} missing={missing} shared={shared} shared_kern={sharedKern} unexpected={unexpected} readback_differs={readBad} kern={badKern} post={badPost} empty_glyph={badEmpty} fvar={badFvar} other_kinds={",".intercalate (otherKinds.map fun (k, n) => s!"{k}:{n}")} notes={notes.replace "\n" " "}" }
   r.getD (badInput "c14emit: cannot parse case")
 
 end Fontc.Driver.C14
